@@ -114,7 +114,22 @@ def main(tier):
                 rep.violation("nonfinite_result_without_flag", {"stress_case": case, "observed": o}, stress=case[0])
             if o.get("expect") == "raise" and o["outcome"] == "returned":
                 rep.violation("unsupported_element_not_rejected", {"stress_case": case, "observed": o}, stress=case[0])
+        pres = common.run_forked(guards_driver.PROBES, guards_driver.run_probe, timeout=600)
+        probes = []
+        for case, rr in zip(guards_driver.PROBES, pres):
+            if not rr.get("ok"):
+                rep.machinery(f"probe {case['name']} failed: {rr.get('error')}")
+                continue
+            o = rr["result"]
+            probes.append(o)
+            if case["expect"] == "raise" and o["outcome"] == "returned":
+                rep.violation("invalid_request_not_rejected", {"probe": case, "observed": o}, stress=case["name"])
+            if case["expect"] == "return" and o["outcome"] == "raised":
+                rep.violation("valid_request_rejected", {"probe": case, "observed": o}, stress=case["name"])
+            if o["outcome"] == "returned" and not (o["finite"] or o["flagged"]):
+                rep.violation("nonfinite_result_without_flag", {"probe": case, "observed": o}, stress=case["name"])
         cov = {
+            "guard_probes": probes,
             "states": r.distinct + g.distinct,
             "transitions": r.generated + g.generated,
             "traces_validated_against_impl": len(pick),
